@@ -164,7 +164,7 @@ pub fn gen_amount(t: &mut Tape, dom: Dom) -> AmountT {
     use quantities::Decimal;
     let w_wide = if dom == Dom::Moderate { 0 } else { 12 };
     let w_ext = if dom == Dom::Moderate { 0 } else { 6 };
-    let class = t.weighted(&[15, 30, 30, w_wide, w_ext]);
+    let class = t.weighted(&[15, 30, 30, w_wide, w_ext, 4]);
     let raw = [t.next(), t.next(), t.next(), t.next()];
     let mut tt = Tape::new(&raw);
     match class {
@@ -173,6 +173,32 @@ pub fn gen_amount(t: &mut Tape, dom: Dom) -> AmountT {
             let j = tt.below(7) as u32;
             let k = tt.small_int(1_000_000);
             amt::typed(k, j)
+        }
+        5 => {
+            // coefficients at which the representation changes regime: the
+            // boundaries of 64-bit integers, powers of ten with trailing
+            // zeros, 19 and 20 digits; ordinary magnitudes (10..=18
+            // fractional digits)
+            const C: [i128; 14] = [
+                9_223_372_036_854_775_807,
+                9_223_372_036_854_775_808,
+                9_223_372_036_854_775_809,
+                18_446_744_073_709_551_615,
+                18_446_744_073_709_551_616,
+                18_446_744_073_709_551_617,
+                1_000_000_000_000_000_000,
+                999_999_999_999_999_999,
+                1_000_000_000_000_000_001,
+                10_000_000_000_000_000_000,
+                9_999_999_999_999_999_999,
+                10_000_000_000_000_000_001,
+                500_000_000_000_000_000,
+                2_500_000_000_000_000_000,
+            ];
+            let c = C[tt.below(C.len())];
+            let d = 10 + tt.below(9) as u8;
+            let c = if tt.bool(1, 3) { -c } else { c };
+            Decimal::new_raw(c, d)
         }
         2 => {
             // random coefficient, 0..=18 fractional digits, |value| < 1e9
